@@ -301,6 +301,10 @@ where
     }
 }
 
+#[cfg(all(test, feature = "verif-hooks"))]
+#[path = "auto_verif_replays.rs"]
+mod verif_replays;
+
 #[cfg(test)]
 mod tests {
 
